@@ -25,6 +25,15 @@ func mkClosureP1(b bodyFn) func() *kit.P1 {
 	return func() *kit.P1 { return b(nil)[0].Interface().(*kit.P1) }
 }
 
+//go:noinline
+func mkClosureP0dep(b bodyFn) func(*kit.P1) *kit.P0 {
+	return func(d *kit.P1) *kit.P0 { return b([]reflect.Value{reflect.ValueOf(d)})[0].Interface().(*kit.P0) }
+}
+
+func (m *maker) MakeP0dep(d *kit.P1) *kit.P0 {
+	return m.b([]reflect.Value{reflect.ValueOf(d)})[0].Interface().(*kit.P0)
+}
+
 type maker struct{ b bodyFn }
 
 func (m *maker) MakeP0() *kit.P0 { return m.b(nil)[0].Interface().(*kit.P0) }
@@ -53,6 +62,65 @@ type fnKindCase struct {
 	Kind string `json:"kind"`
 	Life string `json:"life"`
 }
+
+// re-entrant resolution: r0 -> P0@a and r1 -> P0@b share code and signature and both
+// take a transient P1 whose constructor, on its first invocation, resolves P0@b
+// from the injected Scope - i.e. b is constructed while a's arguments are being built.
+func reentrantSpec(life string) kit.Spec {
+	return kit.Spec{Regs: []kit.Reg{
+		{ID: 0, Life: life, Outs: []kit.Out{{T: "P0"}}, Name: "a", Deps: []kit.Dep{{T: "P1"}}},
+		{ID: 1, Life: life, Outs: []kit.Out{{T: "P0"}}, Name: "b", Deps: []kit.Dep{{T: "P1"}}},
+		{ID: 2, Life: "transient", Outs: []kit.Out{{T: "P1"}}, Deps: []kit.Dep{{T: "scope"}}, Nested: []kit.Dep{{T: "P0", Key: "b"}}},
+	}}
+}
+
+func runReentrant(c fnKindCase) (*Env, *Model) {
+	spec := reentrantSpec(c.Life)
+	e := NewEnv(&spec)
+	w := e.W
+	body := func(i int) bodyFn { r := &spec.Regs[i]; return w.Body(r, kit.FuncType(r)) }
+	switch c.Kind {
+	case "reentrant-closure":
+		w.SetFn(0, mkClosureP0dep(body(0)))
+		w.SetFn(1, mkClosureP0dep(body(1)))
+	case "reentrant-methodvalue":
+		w.SetFn(0, (&maker{body(0)}).MakeP0dep)
+		w.SetFn(1, (&maker{body(1)}).MakeP0dep)
+	case "reentrant-makefunc":
+	}
+	m := NewModel(&spec)
+	e.Build()
+	if e.Prov != nil {
+		e.Do(Op{Kind: "scope", Bind: "s1"})
+		e.Do(Op{Kind: "get", Scope: "s1", T: "P0", Key: "a"})
+		e.Do(Op{Kind: "get", Scope: "s1", T: "P0", Key: "b"})
+		e.Do(Op{Kind: "get", Scope: "s1", T: "P0", Key: "a"})
+		e.Do(Op{Kind: "scope", Bind: "s2"})
+		e.Do(Op{Kind: "get", Scope: "s2", T: "P0", Key: "b"})
+		e.Do(Op{Kind: "get", Scope: "s2", T: "P0", Key: "a"})
+	}
+	return e, m
+}
+
+// nestedOracle: what a constructor resolved from its injected scope is the
+// model's registration for that identity.
+func (e *Env) nestedOracle(m *Model) []Finding {
+	var out []Finding
+	for _, cl := range e.W.Calls {
+		for _, a := range cl.Nested {
+			ro, ok := m.Services[Ident{T: a.Dep.T, Key: a.Dep.Key}]
+			if !ok {
+				continue
+			}
+			if a.Kind != "inst" || a.Inst.Reg != ro.Reg || a.Inst.Out != ro.Out {
+				out = append(out, Finding{feat("clause", "nested-resolution-wrong-producer"), fmt.Sprintf("constructor r%d#%d resolved %s@%s from its scope and got %s, want an instance of r%d", cl.Reg, cl.Serial, a.Dep.T, a.Dep.Key, a.String(), ro.Reg)})
+			}
+		}
+	}
+	return out
+}
+
+var reentrantKinds = []string{"reentrant-closure", "reentrant-methodvalue", "reentrant-makefunc"}
 
 var fnKinds = []string{"toplevel", "closure", "closure-difftype", "methodvalue", "methodvalue-difftype", "methodexpr", "generic", "generic-difftype", "makefunc", "makefunc-difftype"}
 
@@ -244,14 +312,17 @@ func prodTemplates() []prodTemplate {
 		{"instance2-group", []kit.Reg{{Kind: "instance", Outs: []kit.Out{{T: "D0"}}, Group: "g"}, {Kind: "instance", Outs: []kit.Out{{T: "D0"}}, Group: "g"}, {Kind: "instance", Outs: []kit.Out{{T: "D0"}}, Group: "h"}}},
 		{"instance-group", []kit.Reg{{Kind: "instance", Outs: []kit.Out{{T: "D0"}}, Group: "g"}, {Outs: []kit.Out{{T: "D0"}}, Group: "g"}}},
 		{"err-return", []kit.Reg{{Outs: []kit.Out{{T: "D3"}}, Err: true}}},
+		{"chain", []kit.Reg{{Outs: []kit.Out{{T: "P0"}}, Deps: []kit.Dep{{T: "P1"}}}, {Outs: []kit.Out{{T: "P1"}}, Deps: []kit.Dep{{T: "P2"}}}, {Outs: []kit.Out{{T: "P2"}}}}},
 	}
 }
 
 type formCase struct {
-	Prod     []string `json:"producers"`
-	Shape    string   `json:"shape"` // positional | in | inptr
-	ProdLife string   `json:"prod_life"`
-	ConsLife string   `json:"cons_life"`
+	Prod      []string `json:"producers"`
+	Shape     string   `json:"shape"` // positional | in | inptr
+	ProdLife  string   `json:"prod_life"`
+	ConsLife  string   `json:"cons_life"`
+	ConsFirst bool     `json:"consumer_registered_first,omitempty"`
+	Reverse   bool     `json:"reversed_map_order,omitempty"`
 }
 
 func (c formCase) spec() (kit.Spec, bool) {
@@ -293,6 +364,11 @@ func (c formCase) spec() (kit.Spec, bool) {
 				}
 				continue
 			}
+			if c.Shape == "in-optional" {
+				// every dependency is declared ONLY as an optional field
+				cons.Deps = append(cons.Deps, kit.Dep{T: k.T, Key: k.Key, Group: k.Group, Opt: true})
+				continue
+			}
 			cons.Deps = append(cons.Deps, kit.Dep{T: k.T, Key: k.Key, Group: k.Group})
 			if k.Group == "" {
 				// the same identity once more as an optional field
@@ -312,7 +388,11 @@ func (c formCase) spec() (kit.Spec, bool) {
 			kit.Dep{T: "ctx"}, kit.Dep{T: "scope"}, kit.Dep{T: "provider"},
 		)
 	}
-	spec.Regs = append(spec.Regs, cons)
+	if c.ConsFirst {
+		spec.Regs = append([]kit.Reg{cons}, spec.Regs...)
+	} else {
+		spec.Regs = append(spec.Regs, cons)
+	}
 	return spec, true
 }
 
@@ -388,13 +468,20 @@ func c04FnKinds(r *mc.Report) {
 	run := func(c fnKindCase) {
 		var e *Env
 		var m *Model
-		s := seqOnce(func() { e, m = runFnKind(c) })
+		s := seqOnce(func() {
+			if strings.HasPrefix(c.Kind, "reentrant") {
+				e, m = runReentrant(c)
+			} else {
+				e, m = runFnKind(c)
+			}
+		})
 		r.Executions++
 		r.States++
 		r.Transitions += int64(len(e.Results))
 		r.Validated++
 		r.Outcome("fnkind " + c.Kind + "/" + c.Life + " | " + e.Summary())
 		fs := c04Oracle(e, m)
+		fs = append(fs, e.nestedOracle(m)...)
 		fs = append(fs, genericFindings(nil, s)...)
 		for _, f := range fs {
 			f.F["fnkind"] = c.Kind
@@ -413,6 +500,11 @@ func c04FnKinds(r *mc.Report) {
 			run(fnKindCase{k, l})
 		}
 	}
+	for _, k := range reentrantKinds {
+		for _, l := range []string{"scoped", "transient"} {
+			run(fnKindCase{k, l})
+		}
+	}
 }
 
 func c04Forms(r *mc.Report, nprod int) {
@@ -420,7 +512,9 @@ func c04Forms(r *mc.Report, nprod int) {
 		var e *Env
 		var m *Model
 		ok := false
+		vsched.BaseReverse = c.Reverse
 		s := seqOnce(func() { e, m, ok = runForm(c) })
+		vsched.BaseReverse = false
 		if !ok {
 			return
 		}
@@ -428,7 +522,7 @@ func c04Forms(r *mc.Report, nprod int) {
 		r.States++
 		r.Transitions += int64(len(e.Results))
 		r.Validated++
-		r.Outcome(fmt.Sprintf("forms %v/%s/%s/%s | %s", c.Prod, c.Shape, c.ProdLife, c.ConsLife, e.Summary()))
+		r.Outcome(fmt.Sprintf("forms %v/%s/%s/%s/%v | %s", c.Prod, c.Shape, c.ProdLife, c.ConsLife, c.ConsFirst, e.Summary()))
 		fs := c04Oracle(e, m)
 		fs = append(fs, genericFindings(nil, s)...)
 		for _, f := range fs {
@@ -455,16 +549,21 @@ func forEachFormCase(r *mc.Report, nprod int, run func(c formCase)) {
 	}
 	tp := prodTemplates()
 	lifes := [][2]string{{"singleton", "singleton"}, {"scoped", "scoped"}, {"transient", "transient"}, {"singleton", "scoped"}, {"singleton", "transient"}, {"transient", "scoped"}}
-	for _, shape := range []string{"positional", "in", "inptr"} {
+	for _, shape := range []string{"positional", "in", "inptr", "in-optional"} {
 		for _, lf := range lifes {
 			if nprod == 1 {
 				for _, a := range tp {
-					run(formCase{[]string{a.Name}, shape, lf[0], lf[1]})
+					run(formCase{Prod: []string{a.Name}, Shape: shape, ProdLife: lf[0], ConsLife: lf[1]})
+					run(formCase{Prod: []string{a.Name}, Shape: shape, ProdLife: lf[0], ConsLife: lf[1], ConsFirst: true})
+					run(formCase{Prod: []string{a.Name}, Shape: shape, ProdLife: lf[0], ConsLife: lf[1], ConsFirst: true, Reverse: true})
 				}
 			} else {
 				for i, a := range tp {
 					for _, b := range tp[i+1:] {
-						run(formCase{[]string{a.Name, b.Name}, shape, lf[0], lf[1]})
+						run(formCase{Prod: []string{a.Name, b.Name}, Shape: shape, ProdLife: lf[0], ConsLife: lf[1]})
+						if lf[0] == "singleton" && lf[1] == "singleton" {
+							run(formCase{Prod: []string{a.Name, b.Name}, Shape: shape, ProdLife: lf[0], ConsLife: lf[1], ConsFirst: true})
+						}
 					}
 				}
 			}
